@@ -101,6 +101,45 @@ pub open spec fn farm_reward(s: Storage, contract: Seq<char>, f: Farm, user: Seq
     else if to == 0 { epoch_reward(s, contract, f, user, lp, from, to) }
     else { farm_reward(s, contract, f, user, lp, from, (to - 1) as u64) + epoch_reward(s, contract, f, user, lp, from, to) }
 }
+/// epochs at or after the farm's (exclusive) end pay nothing
+pub proof fn lemma_farm_reward_tail(s: Storage, contract: Seq<char>, f: Farm, user: Seq<char>, lp: Seq<char>, from: u64, a: u64, b: u64)
+    requires a <= b, a == b || f.preliminary_end_epoch <= a + 1,
+    ensures farm_reward(s, contract, f, user, lp, from, b) == farm_reward(s, contract, f, user, lp, from, a),
+    decreases b,
+{
+    if b > a {
+        lemma_farm_reward_tail(s, contract, f, user, lp, from, a, (b - 1) as u64);
+        assert(epoch_reward(s, contract, f, user, lp, from, b) == 0);
+    }
+}
+/// C05/C07: amount of `denom` the first n farms of the list pay the user over [from, until]
+pub open spec fn farms_total(s: Storage, contract: Seq<char>, farms: Seq<Farm>, user: Seq<char>, lp: Seq<char>, from: u64, until: u64, denom: Seq<char>, n: nat) -> nat
+    decreases n
+{
+    if n == 0 || n > farms.len() { 0 } else {
+        let f = farms[n - 1];
+        farms_total(s, contract, farms, user, lp, from, until, denom, (n - 1) as nat)
+            + (if f.start_epoch <= until && f.farm_asset.denom@ == denom { farm_reward(s, contract, f, user, lp, from, until) } else { 0 })
+    }
+}
+pub open spec fn rewards_of(r: RewardsResponse) -> Seq<Coin> {
+    match r {
+        RewardsResponse::ClaimRewards { rewards, modified_farms } => rewards@,
+        RewardsResponse::QueryRewardsResponse { rewards } => rewards@,
+        RewardsResponse::RewardsResponse { total_rewards, rewards_per_lp_denom } => total_rewards@,
+    }
+}
+pub proof fn lemma_farm_reward_empty(s: Storage, contract: Seq<char>, f: Farm, user: Seq<char>, lp: Seq<char>, from: u64, to: u64)
+    requires to < from,
+    ensures farm_reward(s, contract, f, user, lp, from, to) == 0,
+{}
+pub proof fn lemma_farms_total_empty(s: Storage, contract: Seq<char>, farms: Seq<Farm>, user: Seq<char>, lp: Seq<char>, from: u64, until: u64, denom: Seq<char>, n: nat)
+    requires until < from,
+    ensures farms_total(s, contract, farms, user, lp, from, until, denom, n) == 0,
+    decreases n,
+{
+    if n != 0 && n <= farms.len() { lemma_farms_total_empty(s, contract, farms, user, lp, from, until, denom, (n - 1) as nat); }
+}
 /// what calculate_rewards reports per farm (claim mode): for every farm of the LP token that has started by `until`
 pub open spec fn modified_farms_ok(s: Storage, contract: Seq<char>, user: Seq<char>, lp: Seq<char>, until: u64, m: Map<Seq<char>, Uint128>) -> bool {
     let from = start_from_spec(s, user, lp);
